@@ -124,6 +124,23 @@ Definition isotope_init_py (args : list pyval) : outcome isotope :=
   | Raise e => Raise e
   | Outside => Outside
   end.
+(* An Isotope passed as the `Element element` argument of Isotope(...) is accepted (subclass instance) and
+   kept as .element; the registry model has no such objects (exec refuses them, so they cannot be exported),
+   but the constructor outcome is modelled: the new object takes the atomic number of its parent isotope *)
+Record nested_isotope := mkNested { ni_name : string; ni_symbol : string; ni_Z : Z; ni_weight : Q; ni_A : Z;
+                                    ni_parent : isotope }.
+Definition isotope_on_isotope_init_py (args : list pyval) : outcome nested_isotope :=
+  match args with
+  | [n; s; PSpecies (SI j); a; w] =>
+      match convert_args isotope_init_sig [n; s; PSpecies (SE (base (SI j))); a; w] with
+      | Done [VS n'; VS s'; VE b; VZ a'; VQ w'] => Done (mkNested n' s' (e_Z b) w' a' j)
+      | Done _ => Outside
+      | Raise e => Raise e
+      | Outside => Outside
+      end
+  | _ => Outside
+  end.
+
 (* Line accepts an Isotope for its Element argument (a subclass instance) and keeps it *)
 Definition line_sig_value (v : pyval) : pyval :=
   match v with PSpecies (SI i) => PSpecies (SE (base (SI i))) | _ => v end.
